@@ -194,55 +194,90 @@ fn smallest(mut f: impl FnMut(u64) -> Result<bool, String>) -> Result<Option<u64
     Ok(Some(hi))
 }
 
-/// Measures one back-end. `Err`: the harness could not measure;
-/// `Ok(Err(detail))`: entries do not expire (a violation).
-pub fn measure(backend: Backend, root: &Path) -> Result<Result<Measured, String>, String> {
+pub enum Outcome {
+    Measured(Measured),
+    /// Entries do not expire: a violation in its own right.
+    NeverExpires(String),
+    /// The probes themselves misbehaved (a lookup of a file that is on disk
+    /// failed, jiff panicked or deadlocked, ...). That is for the simulation
+    /// proper to find, minimise and report; it runs with jiff's documented
+    /// five minutes.
+    Inconclusive(String),
+}
+
+/// Measures one back-end.
+pub fn measure(backend: Backend, root: &Path) -> Outcome {
     sim::init_once();
     sim::with_rt(|rt| {
         rt.reset(Policy::Random { stick: 0 }, 0, vec![]);
         rt.max_steps = u64::MAX;
     });
-    let mut p = Probe { root: root.to_path_buf(), backend, n: 0 };
     let name = match backend {
         Backend::Concatenated => "concatenated",
         _ => "zoneinfo",
     };
-    let z = smallest(|d| p.zone_refreshed_after(d));
-    let n = match z {
-        Ok(Some(_)) => smallest(|d| p.name_found_after(d)),
-        _ => Ok(Some(1)),
-    };
-    sim::with_rt(|rt| rt.active = false);
+    let r = std::panic::catch_unwind(std::panic::AssertUnwindSafe(|| {
+        let mut p = Probe { root: root.to_path_buf(), backend, n: 0 };
+        let z = smallest(|d| p.zone_refreshed_after(d))?;
+        let n = match z {
+            Some(_) => smallest(|d| p.name_found_after(d))?,
+            None => Some(1),
+        };
+        Ok::<_, String>((z, n))
+    }));
+    sim::with_rt(|rt| {
+        rt.active = false;
+        rt.abort = None;
+    });
     let _ = std::fs::remove_dir_all(root);
-    let (z, n) = (z?, n?);
+    let (z, n) = match r {
+        Ok(Ok(v)) => v,
+        Ok(Err(e)) => return Outcome::Inconclusive(format!("{name}: {e}")),
+        Err(_) => {
+            return Outcome::Inconclusive(format!("{name}: jiff panicked or deadlocked during the measurement"))
+        }
+    };
     let Some(z) = z else {
-        return Ok(Err(format!(
+        return Outcome::NeverExpires(format!(
             "{name}: a replaced zone file is still not re-read ten years (simulated) after it was cached"
-        )));
+        ));
     };
     let Some(n) = n else {
-        return Ok(Err(format!(
+        return Outcome::NeverExpires(format!(
             "{name}: a zone file created after the name index was built is still not found ten years (simulated) later"
-        )));
+        ));
     };
     // An answer may lag while the advance is *smaller* than the threshold.
     let ttl = z.max(n) - 1;
-    Ok(Ok(Measured { backend: name, zone_refresh_after_ns: z, names_refresh_after_ns: n, ttl_ns: ttl.max(1) }))
+    Outcome::Measured(Measured { backend: name, zone_refresh_after_ns: z, names_refresh_after_ns: n, ttl_ns: ttl.max(1) })
+}
+
+pub struct Calibration {
+    pub measured: Vec<Measured>,
+    pub notes: Vec<String>,
 }
 
 /// Calibrates both on-disk back-ends and publishes the result to this
-/// process and (through the environment) to its children.
-pub fn calibrate(root: &Path) -> Result<Result<Vec<Measured>, String>, String> {
-    let mut out = vec![];
+/// process and (through the environment) to its children. `Err(detail)`:
+/// entries never expire.
+pub fn calibrate(root: &Path) -> Result<Calibration, String> {
+    let mut out = Calibration { measured: vec![], notes: vec![] };
     for b in [Backend::ZoneInfo, Backend::Concatenated] {
-        match measure(b, &root.join(env_name(b)))? {
-            Ok(m) => {
+        match measure(b, &root.join(env_name(b))) {
+            Outcome::Measured(m) => {
                 cell(b).store(m.ttl_ns, Ordering::Relaxed);
                 std::env::set_var(env_name(b), m.ttl_ns.to_string());
-                out.push(m);
+                out.measured.push(m);
             }
-            Err(detail) => return Ok(Err(detail)),
+            Outcome::NeverExpires(detail) => return Err(detail),
+            Outcome::Inconclusive(why) => {
+                cell(b).store(DEFAULT_TTL_NS, Ordering::Relaxed);
+                std::env::set_var(env_name(b), DEFAULT_TTL_NS.to_string());
+                out.notes.push(format!(
+                    "time-to-live measurement inconclusive ({why}); using the documented 300 s"
+                ));
+            }
         }
     }
-    Ok(Ok(out))
+    Ok(out)
 }
